@@ -700,6 +700,11 @@ func c07Audit(p *Prog, r *Report, prefixed *ssa.Function) {
 					if _, isArr := deref(x.X.Type()).Underlying().(*types.Array); isArr {
 						return // slicing a local array literal (make/append idiom)
 					}
+					if k, ok := x.High.(*ssa.Const); ok && x.Max == nil && k.Value != nil && k.Value.String() == "0" {
+						if lk, ok := x.Low.(*ssa.Const); x.Low == nil || (ok && lk.Value != nil && lk.Value.String() == "0") {
+							return // x[:0] is in range for every x
+						}
+					}
 					r.Sites++
 					key := fmt.Sprintf("%s|%s", FuncName(f), sk(x))
 					rs := at(in)
@@ -1737,6 +1742,41 @@ func structuralIndexBound(p *Prog, f *ssa.Function, x *ssa.IndexAddr) string {
 			}
 		}
 	})
+	if mc != nil && site == nil {
+		// (3) the less function of sort.Slice: called with indices inside the sorted slice, which is the captured one
+		if pa, ok := x.Index.(*ssa.Parameter); ok && pa.Parent() == f {
+			if ld, ok := x.X.(*ssa.UnOp); ok {
+				if fv, ok := ld.X.(*ssa.FreeVar); ok {
+					var cap ssa.Value
+					for i, v := range f.FreeVars {
+						if v == fv && i < len(mc.Bindings) {
+							cap = mc.Bindings[i]
+						}
+					}
+					onlyRead := true
+					for _, fr := range refs(fv) {
+						if u, ok := fr.(*ssa.UnOp); !ok || u.Op != token.MUL {
+							onlyRead = false
+						}
+					}
+					for _, rf := range refs(mc) {
+						c, ok := rf.(*ssa.Call)
+						if !ok || len(c.Call.Args) != 2 || c.Call.Args[1] != ssa.Value(mc) {
+							continue
+						}
+						if nm := calleeName(c); nm != "sort.Slice" && nm != "sort.SliceStable" {
+							continue
+						}
+						if mi, ok := c.Call.Args[0].(*ssa.MakeInterface); ok && onlyRead && cap != nil {
+							if l0, ok := mi.X.(*ssa.UnOp); ok && l0.Op == token.MUL && l0.X == cap {
+								return "less function of sort.Slice over the captured slice: it is called with indices inside that slice"
+							}
+						}
+					}
+				}
+			}
+		}
+	}
 	if mc == nil || site == nil {
 		return ""
 	}
@@ -1795,6 +1835,13 @@ func structuralIndexBound(p *Prog, f *ssa.Function, x *ssa.IndexAddr) string {
 	// the captured variable is the very slice the creator's loop ranges over
 	if rsSite["(phi:rangeindex + 1) < len(*"+fv.Name()+")"] || rsSite["(phi:rangeindex + 1) < len("+sk(ld)+")"] {
 		return "the closure receives the index of its creator's range loop over the captured slice itself"
+	}
+	// the creator ranges over the captured variable, which is assigned only before that loop and never by a closure:
+	// calls made inside the loop cannot change it, although it is shared with the closures
+	for i, pa := range f.Params {
+		if pa == x.Index && i < len(callArgs) && rangesOverAlloc(callArgs[i], al, site) && assignedOnlyBefore(al, callArgs[i]) {
+			return "the closure receives the index of its creator's range loop over the captured slice, which is assigned only before the loop and by no closure"
+		}
 	}
 	for _, rf := range refs(al) {
 		if st, ok := rf.(*ssa.Store); ok && st.Addr == ssa.Value(al) {
@@ -1874,4 +1921,75 @@ func dominatingIndexCovers(f *ssa.Function, sl *ssa.Slice) bool {
 		}
 	}
 	return found
+}
+
+// rangesOverAlloc: idx is the index (phi+1) of a range loop whose bound is len(*al), read before the loop, and site
+// lies in the loop body.
+func rangesOverAlloc(idx ssa.Value, al *ssa.Alloc, site ssa.Instruction) bool {
+	bo, ok := idx.(*ssa.BinOp)
+	if !ok || bo.Op != token.ADD {
+		return false
+	}
+	if _, ok := bo.X.(*ssa.Phi); !ok {
+		return false
+	}
+	hdr := bo.Block()
+	iff, ok := hdr.Instrs[len(hdr.Instrs)-1].(*ssa.If)
+	if !ok {
+		return false
+	}
+	cmp, ok := iff.Cond.(*ssa.BinOp)
+	if !ok || cmp.Op != token.LSS || cmp.X != ssa.Value(bo) {
+		return false
+	}
+	lc, ok := cmp.Y.(*ssa.Call)
+	if !ok {
+		return false
+	}
+	if b, ok := lc.Call.Value.(*ssa.Builtin); !ok || b.Name() != "len" || len(lc.Call.Args) != 1 {
+		return false
+	}
+	ld, ok := lc.Call.Args[0].(*ssa.UnOp)
+	if !ok || ld.Op != token.MUL || ld.X != ssa.Value(al) {
+		return false
+	}
+	body := hdr.Succs[0]
+	return len(body.Preds) == 1 && body.Dominates(site.Block())
+}
+
+// assignedOnlyBefore: every store to the local al happens in its own function in a block that dominates the loop
+// header of idx and is not part of the loop; closures that capture it only read it; its address goes nowhere else.
+func assignedOnlyBefore(al *ssa.Alloc, idx ssa.Value) bool {
+	hdr := idx.(*ssa.BinOp).Block()
+	for _, rf := range refs(al) {
+		switch x := rf.(type) {
+		case *ssa.Store:
+			if x.Addr != ssa.Value(al) || !x.Block().Dominates(hdr) || hdr.Dominates(x.Block()) {
+				return false
+			}
+		case *ssa.UnOp:
+			if x.Op != token.MUL {
+				return false
+			}
+		case *ssa.MakeClosure:
+			fn, _ := x.Fn.(*ssa.Function)
+			if fn == nil {
+				return false
+			}
+			for i, b := range x.Bindings {
+				if b != ssa.Value(al) || i >= len(fn.FreeVars) {
+					continue
+				}
+				for _, fr := range refs(fn.FreeVars[i]) {
+					if u, ok := fr.(*ssa.UnOp); !ok || u.Op != token.MUL {
+						return false
+					}
+				}
+			}
+		case *ssa.DebugRef:
+		default:
+			return false
+		}
+	}
+	return true
 }
